@@ -57,9 +57,7 @@ func (t *RTree) RangeSearch(box Box, callback func(recordID int) error) error {
 				continue
 			}
 			if entry.child == nil {
-				if err := callback(entry.recordID); errors.Is(err, Stop) {
-					return nil
-				} else if err != nil {
+				if err := callback(entry.recordID); err != nil {
 					return err
 				}
 			} else {
@@ -70,7 +68,12 @@ func (t *RTree) RangeSearch(box Box, callback func(recordID int) error) error {
 		}
 		return nil
 	}
-	return recurse(t.root)
+	// Any error (including Stop) from the callback unwinds the whole
+	// recursion, so that no other part of the tree is searched afterwards.
+	if err := recurse(t.root); !errors.Is(err, Stop) {
+		return err
+	}
+	return nil
 }
 
 // Extent gives the Box that most closely bounds the RTree. If the RTree is
